@@ -81,12 +81,12 @@ def judge_record(rec, reg, ctx):
         return 0, None
     v = reg.get(before._name)
     if v is not None:
-        why = same(v.np, aval, v.inx, v.mag)
+        why = same(v.np, aval, v.inx, v.mag, eps=v.eps)
         if why:
             # is it the rewrite, or does `before` itself already differ from NumPy (C01's event)?
             try:
                 bval, _ = R.eval_expr(before)
-                if same(bval, aval, v.inx, v.mag) is None:
+                if same(bval, aval, v.inx, v.mag, eps=v.eps) is None:
                     ctx.count("rung1_upstream_defect_not_the_rewrite")
                     return 1, None
             except Exception:
@@ -100,14 +100,28 @@ def judge_record(rec, reg, ctx):
         except Exception as e:
             ctx.count("rewrite_before_eval_raised")
             return 4, None
-        why = same(bval, aval, 1 if np.asarray(bval).dtype.kind in "fc" else 0, _mag(bval))
+        why = same(bval, aval, 2 if np.asarray(bval).dtype.kind in "fc" else 0, _mag(bval), eps=tree_eps(before))
         return 2, (("rewrite_changes_value", why) if why else None)
     bval, reason = R.one_block_value(before)
     if bval is None:
         ctx.tab("rung4_reasons", reason.split(":")[0])
         return 4, None
-    why = same(bval, aval, 1 if np.asarray(bval).dtype.kind in "fc" else 0, _mag(bval))
+    why = same(bval, aval, 2 if np.asarray(bval).dtype.kind in "fc" else 0, _mag(bval), eps=tree_eps(before))
     return 3, (("rewrite_changes_value", why) if why else None)
+
+
+def tree_eps(expr):
+    """Coarsest float epsilon of any node below expr (a float32 intermediate limits the accuracy
+    with which two differently associated evaluations can agree)."""
+    eps = 0.0
+    try:
+        for n in expr.walk():
+            dt = getattr(n, "dtype", None)
+            if dt is not None and np.dtype(dt).kind in "fc":
+                eps = max(eps, float(np.finfo(dt).eps))
+    except Exception:
+        pass
+    return eps
 
 
 def _mag(a):
@@ -167,7 +181,7 @@ def check_program(g, v, ctx):
             ctx.tab("raises_left_to_C08", f"{phase}:{type(val[1]).__name__}:{exc_site(val[1])}")
             continue
         ctx.count("phase_values_compared")
-        why = same(ref, val, v.inx, v.mag)
+        why = same(ref, val, v.inx, v.mag, eps=v.eps)
         if why and phase == "raw":
             # the un-optimized program already differs from NumPy: C01's event, not an optimization effect.
             # The optimized forms are then compared with the raw form instead.
